@@ -6,4 +6,6 @@ import (
 	_ "verifharness/internal/props/c03"
 	_ "verifharness/internal/props/c04"
 	_ "verifharness/internal/props/c05"
+	_ "verifharness/internal/props/c06"
+	_ "verifharness/internal/props/c11"
 )
